@@ -16,8 +16,9 @@
       ([Ret]) exactly the result and the pools [stepS] computes, in the heap the proof-level
       interpreter reaches on the translated operations, which represents the model's next state;
     * [runS_sim], [history_extracted]: the same for histories — the statement of [C06_history]
-      transported to [CoreOps.run_ops]; [ledger_extracted]: the C07 corollary;
-    * non-vacuity: [exB], a 27-call history in CoreOps syntax. *)
+      transported to [CoreOps.run_ops]; [ledger_extracted]: the C07 corollary.
+    CoreOpsBridgeOwned.v shows that the [KPush] clause of [post_okb] is implied by the rules and states
+    the theorems with the rule checker alone; non-vacuity is in CoreOpsBridgeEx.v. *)
 From CJ Require Import Base Dbl Heap Forest ForestLemmas CoreSpec CoreDefs CoreRefineBase CoreRefine CoreRefineHistory
   CoreRefineHistoryObj CoreRefineHistoryObjEx CoreRefineCreate CoreLedgerGen CoreHistoryAllSteps CoreHistoryAll
   CoreLedgerAll CoreHistoryAllIter CoreOpsBridge.
